@@ -27,7 +27,7 @@ class CommandResponseMessage(MessagePayload):
         initial_offset = offset
 
         self._STRUCT.pack_into(buffer, offset, self.source_sequence_num, self.response)
-        offset = self._STRUCT.size
+        offset += self._STRUCT.size
 
         if return_buffer:
             return buffer
@@ -39,7 +39,7 @@ class CommandResponseMessage(MessagePayload):
 
         (self.source_sequence_num, self.response) = \
             self._STRUCT.unpack_from(buffer=buffer, offset=offset)
-        offset = self._STRUCT.size
+        offset += self._STRUCT.size
 
         try:
             self.response = Response(self.response)
